@@ -30,6 +30,8 @@ func runC08(c *core.Ctx) {
 	ruleCloseForwarding(c)
 	rulePoolOwnership(c)
 	ruleLZWPrefixOrder(c)
+	ruleIndexClamps(c)
+	ruleDCTPlaneCharge(c)
 }
 
 // filterImplementers lists the named types of package pdf that implement pdf.Filter.
@@ -844,4 +846,211 @@ func ruleLZWPrefixOrder(c *core.Ctx) {
 			}
 		}
 	})
+}
+
+// ruleIndexClamps (C08-R9): decoders clamp table indices taken from the data
+// ("if i >= len(table) { i = 0 }") before indexing.  A clamp that compares
+// with ">" lets the index equal to the length through and the access panics.
+// For every if statement in the filter packages whose condition compares a
+// variable i with n, where n is len(S) or a variable defined as len(S), whose
+// body reassigns i, and where S[i] is evaluated afterwards: the comparison
+// must cover i == n.
+func ruleIndexClamps(c *core.Ctx) {
+	n := 0
+	for _, pkg := range c.Prog.RepoPkgs() {
+		sp := core.ShortPkg(pkg.PkgPath)
+		if !strings.HasPrefix(sp, "pdf/internal/filter") || strings.HasSuffix(sp, "/generate") {
+			continue
+		}
+		for _, fn := range c.Prog.Funcs(pkg) {
+			fn := fn
+			info := fn.Info()
+			lenOf := func(e ast.Expr) types.Object {
+				e = ast.Unparen(e)
+				if call, ok := e.(*ast.CallExpr); ok {
+					if id, ok := call.Fun.(*ast.Ident); ok && id.Name == "len" && len(call.Args) == 1 {
+						return core.ObjOf(info, call.Args[0])
+					}
+				}
+				if obj := core.ObjOf(info, e); obj != nil {
+					defs := core.AssignsTo(info, fn.Decl, obj)
+					if len(defs) == 1 {
+						if as, ok := defs[0].(*ast.AssignStmt); ok && len(as.Rhs) == 1 && len(as.Lhs) == 1 {
+							if call, ok := ast.Unparen(as.Rhs[0]).(*ast.CallExpr); ok {
+								if id, ok := call.Fun.(*ast.Ident); ok && id.Name == "len" && len(call.Args) == 1 {
+									return core.ObjOf(info, call.Args[0])
+								}
+							}
+						}
+					}
+				}
+				return nil
+			}
+			ast.Inspect(fn.Decl.Body, func(m ast.Node) bool {
+				is, ok := m.(*ast.IfStmt)
+				if !ok || is.Else != nil || is.Init != nil {
+					return true
+				}
+				be, ok := ast.Unparen(is.Cond).(*ast.BinaryExpr)
+				if !ok {
+					return true
+				}
+				var iv types.Object
+				var table types.Object
+				var covers bool
+				switch be.Op {
+				case token.GEQ, token.GTR:
+					iv, table = core.ObjOf(info, be.X), lenOf(be.Y)
+					covers = be.Op == token.GEQ
+				case token.LEQ, token.LSS:
+					iv, table = core.ObjOf(info, be.Y), lenOf(be.X)
+					covers = be.Op == token.LEQ
+				default:
+					return true
+				}
+				if iv == nil || table == nil {
+					return true
+				}
+				// body reassigns iv (a clamp), and nothing else
+				reassigns := false
+				for _, st := range is.Body.List {
+					if as, ok := st.(*ast.AssignStmt); ok && len(as.Lhs) == 1 && core.ObjOf(info, as.Lhs[0]) == iv {
+						reassigns = true
+					}
+				}
+				if !reassigns {
+					return true
+				}
+				// table[iv] used after the if
+				used := false
+				ast.Inspect(fn.Decl.Body, func(k ast.Node) bool {
+					if ix, ok := k.(*ast.IndexExpr); ok && ix.Pos() > is.End() && core.ObjOf(info, ix.X) == table && core.ObjOf(info, ix.Index) == iv {
+						used = true
+					}
+					return true
+				})
+				if !used {
+					return true
+				}
+				n++
+				c.Check("C08-R9", fn.Key+"/clamp:"+iv.Name(), "an index clamp in a decoder covers the value equal to the table length", func(o *core.Ob) {
+					o.Count(1)
+					o.At(fn.Site(is, "clamp of "+iv.Name()+" against len("+table.Name()+")"))
+					if !covers {
+						o.Fail("%s: the clamp %s lets %s == len(%s) through; %s[%s] then panics on data the file controls", c.Prog.Pos(is.Pos()), c.Prog.Src(is.Cond), iv.Name(), table.Name(), table.Name(), iv.Name())
+					}
+				})
+				return true
+			})
+		}
+	}
+	c.Floor("C08-R9", 1)
+	_ = n
+}
+
+// ruleDCTPlaneCharge (C08-R10): the JPEG decoder charges the per-stream
+// budget for its pixel planes before allocating them (makeImg charges
+// pixelPlaneBytes).  Every plane is (8·h·mxx) × (8·v·storeMyy) bytes; the
+// charge covers the allocation only if every plane term of the cost
+// includes the number of stored MCU rows.  In pixelPlaneBytes every product
+// that contains a component's vertical sampling factor also contains the
+// storeMyy parameter, and in makeImg every plane allocation does too.
+func ruleDCTPlaneCharge(c *core.Ctx) {
+	const pk = "pdf/internal/filter/dct/jpeg"
+	c.Check("C08-R10", pk+".(*decoder).pixelPlaneBytes", "every plane term of the charged cost (a product containing a vertical sampling factor .v) includes the number of stored MCU rows", func(o *core.Ob) {
+		for _, name := range []string{"(*decoder).pixelPlaneBytes", "(*decoder).makeImg"} {
+			fn := c.Prog.Func(pk, name)
+			info := fn.Info()
+			var rows types.Object
+			for _, fl := range fn.Decl.Type.Params.List {
+				for _, nm := range fl.Names {
+					if nm.Name == "storeMyy" {
+						rows = info.Defs[nm]
+					}
+				}
+			}
+			if rows == nil {
+				ast.Inspect(fn.Decl.Body, func(m ast.Node) bool {
+					if as, ok := m.(*ast.AssignStmt); ok && as.Tok == token.DEFINE && len(as.Lhs) == 1 && core.ExprStr(as.Lhs[0]) == "storeMyy" {
+						rows = core.ObjOf(info, as.Lhs[0])
+					}
+					return true
+				})
+			}
+			if rows == nil {
+				core.Undecided("%s: the stored-rows variable was not found", fn.Key)
+			}
+			// local aliases of a .v factor (v0 := d.comp[0].v)
+			vAlias := map[types.Object]bool{}
+			ast.Inspect(fn.Decl.Body, func(m ast.Node) bool {
+				if as, ok := m.(*ast.AssignStmt); ok && as.Tok == token.DEFINE && len(as.Lhs) == 1 && len(as.Rhs) == 1 {
+					if sel, ok := ast.Unparen(as.Rhs[0]).(*ast.SelectorExpr); ok && sel.Sel.Name == "v" {
+						vAlias[core.ObjOf(info, as.Lhs[0])] = true
+					}
+				}
+				return true
+			})
+			hasV := func(e ast.Expr) bool {
+				found := false
+				ast.Inspect(e, func(m ast.Node) bool {
+					switch x := m.(type) {
+					case *ast.SelectorExpr:
+						if x.Sel.Name == "v" {
+							if v, ok := info.ObjectOf(x.Sel).(*types.Var); ok && v.IsField() {
+								found = true
+							}
+						}
+					case *ast.Ident:
+						if vAlias[info.ObjectOf(x)] {
+							found = true
+						}
+					}
+					return true
+				})
+				return found
+			}
+			n := 0
+			seen := map[ast.Node]bool{}
+			ast.Inspect(fn.Decl.Body, func(m ast.Node) bool {
+				be, ok := m.(*ast.BinaryExpr)
+				if !ok || be.Op != token.MUL || seen[be] {
+					return true
+				}
+				// maximal product: mark nested products as seen
+				ast.Inspect(be, func(k ast.Node) bool {
+					if b2, ok := k.(*ast.BinaryExpr); ok && b2.Op == token.MUL {
+						seen[b2] = true
+					}
+					return true
+				})
+				if !hasV(be) {
+					return true
+				}
+				if as := enclosingAssign(fn, be); as != nil && len(as.Lhs) == 1 {
+					if sel, ok := ast.Unparen(as.Lhs[0]).(*ast.SelectorExpr); ok && strings.HasSuffix(sel.Sel.Name, "Ratio") {
+						return true
+					}
+				}
+				n++
+				o.Count(1)
+				o.At(fn.Site(be, "plane height term"))
+				if !core.Mentions(info, be, rows) {
+					o.FailAt(fn.Site(be, ""), "%s: the plane term %s does not include the number of stored MCU rows (%s): the planes allocated in full-buffer mode are larger than what is charged to the budget", c.Prog.Pos(be.Pos()), c.Prog.Src(be), rows.Name())
+				}
+				return true
+			})
+			o.Require(n >= 3, "%s: expected at least three plane terms, found %d", fn.Key, n)
+		}
+	})
+}
+
+func enclosingAssign(fn *core.Func, n ast.Node) *ast.AssignStmt {
+	var out *ast.AssignStmt
+	ast.Inspect(fn.Decl.Body, func(m ast.Node) bool {
+		if as, ok := m.(*ast.AssignStmt); ok && as.Pos() <= n.Pos() && n.End() <= as.End() {
+			out = as
+		}
+		return true
+	})
+	return out
 }
